@@ -1,40 +1,39 @@
+"""Demo (triage aid): building a query touches user data / consuming pulls more than needed."""
 from dataclasses import dataclass
-from krrood.entity_query_language.entity import entity, let, Symbol, contains, in_, and_, set_of
+from krrood.entity_query_language.entity import entity, let, Symbol, in_, set_of
 from krrood.entity_query_language.quantify_entity import an
+from krrood.entity_query_language.match import match, entity_matching
+
 @dataclass(eq=False)
 class P(Symbol):
     a: int
-log=[]
-def gen(n, tag):
-    for i in range(n):
-        log.append((tag,i)); yield P(i)
-x=let(P, gen(5,'x'))
-q=an(entity(x))
-print("built; log", log)
-it=iter(q.evaluate()); r=next(it)
-print("first result", r.a, "pulled", len(log))
-log.clear()
-x=let(P, gen(5,'x'))
-q=an(entity(x, x.a>=0))
-it=iter(q.evaluate()); r=next(it)
-print("with condition: first result", r.a, "pulled", len(log))
-log.clear()
-x=let(P, gen(5,'x')); y=let(P, gen(5,'y'))
-q=an(set_of([x,y], x.a>=0))
-it=iter(q.evaluate()); r=next(it)
-print("set_of x,y cond on x only: pulled", log)
-# literal generator consumed at construction
-log.clear()
-def ints():
-    for i in [1,2,3]:
-        log.append(('lit',i)); yield i
-x=let(P,[P(1),P(5)])
-c=in_(x.a, ints())
-print("after constructing in_(x.a, generator): log", log)
-print([r.a for r in an(entity(x,c)).evaluate()], "expected [1]")
+log = []
+bad = 0
+def check(label, cond):
+    global bad
+    print(("ok   " if cond else "FAIL ") + label); bad += not cond
+
 class Weird:
     def __bool__(self):
-        log.append('bool called'); return True
-log.clear()
-c = (x.a == Weird())
-print("after constructing comparator with user object:", log)
+        log.append("bool"); return True
+def ints():
+    for i in [1, 2, 3]:
+        log.append(("lit", i)); yield i
+
+x = let(P, [P(1), P(5)])
+log.clear(); c = in_(x.a, ints())
+check(f"in_(x.a, generator): generator untouched at construction (log {log})", not log)
+check("   ... and the answer is [1]", [r.a for r in an(entity(x, c)).evaluate()] == [1])
+log.clear(); c = (x.a == Weird())
+check(f"x.a == obj: obj.__bool__ not called at construction (log {log})", not log)
+log.clear(); v = let(Weird, Weird())
+check(f"let(T, single_object): __bool__ not called at construction (log {log})", not log)
+log.clear(); m = entity_matching(Weird(), None)
+check(f"match(obj): __bool__ not called at construction (log {log})", not log)
+# demand-driven evaluation
+def gen(n):
+    for i in range(n):
+        log.append(("dom", i)); yield P(i)
+log.clear(); y = let(P, gen(5)); it = iter(an(entity(y)).evaluate()); next(it)
+check(f"first result of an(entity(y)) pulls one element of a one-shot domain (pulled {len(log)})", len(log) == 1)
+raise SystemExit(1 if bad else 0)
